@@ -40,6 +40,8 @@ def rule_r1_r2(chk, db):
                         buf = l
     if buf is None:
         raise AnchorMissing("frame buffer not found")
+    buf_local = buf
+    buf = writes.move_aliases(b, buf)        # the buffer may travel through a wrapper (`FrameBuf(buf)`) between the stages
     ev = writes.buffer_events(b, buf, db)
     desc = writes.describe(ev)
     shape = [(e["short"], bool(e["in_loop"])) for e in ev]
@@ -70,7 +72,8 @@ def rule_r1_r2(chk, db):
             sl = flow.backward(b, ht["args"][0], at=hbi)
             whole = not any(short(callee_def(t)) in ("index", "get", "split_at", "slice", "as_ptr") or "Index" in callee_def(t) for _, t, _ in sl.calls)
             rc = flow.resolve_chain(b, ht["args"][0]) or []
-            chk.verdict(whole and (buf in sl.locals), "R1", "crc%d-over-whole-buffer" % (i + 1), b.loc(hbi), "CRC %d is not computed over the whole buffer written so far" % (i + 1))
+            in_buf = (buf in sl.locals) if not isinstance(buf, tuple) else any((a in sl.locals) if not isinstance(a, tuple) else (a[1] in sl.locals) for a in buf[1])
+            chk.verdict(whole and in_buf, "R1", "crc%d-over-whole-buffer" % (i + 1), b.loc(hbi), "CRC %d is not computed over the whole buffer written so far" % (i + 1))
         def direct_call(op):
             r = flow.resolve_place(b, op)
             df = flow.single_def(b, r[0]) if r else None
